@@ -1102,3 +1102,29 @@ def enumerate_paths(body, max_paths=512, start_bb=0, succ=None):
 
     walk(start_bb, [], [], {}, [])
     return results
+
+
+def closure_of_operand(F, body, op, depth=0):
+    """The closure/coroutine body whose value is (directly, via moves/refs/casts) the operand — not anything it captures."""
+    if depth > 8:
+        return None
+    f = op_fn(op)
+    if f is not None:
+        return F.body(f["path"], body.crate) if f.get("local") else None
+    pl = op_place(op)
+    if pl is None:
+        return None
+    cp = canon_place(body, pl)
+    if cp["p"] and not all(e == "*" for e in cp["p"]):
+        return None
+    sd = body.single_def(cp["l"])
+    if sd is None or sd[1] != "assign":
+        return None
+    rv = sd[2]["rv"]
+    if rv["k"] == "agg" and rv.get("agg") in ("closure", "coroutine", "coroutine_closure"):
+        return F.body(rv["def"], body.crate)
+    if rv["k"] in ("use", "cast"):
+        return closure_of_operand(F, body, rv["op"], depth + 1)
+    if rv["k"] == "ref":
+        return closure_of_operand(F, body, {"k": "copy", "pl": rv["pl"]}, depth + 1)
+    return None
